@@ -24,6 +24,7 @@ import (
 	"strings"
 	"sync/atomic"
 
+	"github.com/nspcc-dev/neofs-node/pkg/local_object_storage/blobstor/common"
 	meta "github.com/nspcc-dev/neofs-node/pkg/local_object_storage/metabase"
 	"github.com/nspcc-dev/neofs-node/pkg/local_object_storage/shard"
 	"github.com/nspcc-dev/neofs-node/pkg/local_object_storage/shard/mode"
@@ -114,10 +115,30 @@ var images = []image{
 
 // ---------- configs ----------
 
+// How the read-only mode is entered: always through Shard.SetMode from read-write (the write-cache
+// images hold unflushed objects at that moment), either cleanly or with one component failing during
+// the switch. A failed switch normally leaves the shard reporting read-write - then the property's
+// premise is not established and the configuration is only counted; whenever the shard DOES report a
+// read-only mode afterwards, whatever happened underneath, the whole oracle applies.
+const (
+	eClean = iota
+	eBlobWrite
+	eBlobInit
+	eMetaOpen
+	eWCDir
+	nEntries
+)
+
+var entryName = []string{"", "blobstor-write-fails", "blobstor-init-fails", "metabase-open-fails", "write-cache-dir-unopenable"}
+
+var errInj = errors.New("injected component failure")
+
 type config struct {
 	Img     int
 	WC      bool
 	Mode    mode.Mode
+	Entry   int
+	premise bool              // the shard reports a read-only mode after the entry switch
 	dir     string            // closed pre-populated image (read-write history only)
 	logical string            // digest of the logical persistent state right after the mode switch
 	objs    map[string][]byte // physically stored objects (address -> bytes)
@@ -132,7 +153,11 @@ func (c *config) name() string {
 	if c.WC {
 		wc = "wc"
 	}
-	return images[c.Img].Name + "/" + wc + "/" + m
+	n := images[c.Img].Name + "/" + wc + "/" + m
+	if c.Entry != eClean {
+		n += "/entry:" + entryName[c.Entry]
+	}
+	return n
 }
 
 var (
@@ -147,15 +172,25 @@ func payments() *sw.Payments {
 	return &sw.Payments{Unpaid: map[cid.ID]int64{sw.CID("A"): 0}} // payments on, container A unpaid since epoch 0
 }
 
-func (c *config) open(dir string) (*sw.World, error) {
+func (c *config) open(dir string, s *sys) (*sw.World, error) {
 	ep := &sw.Epoch{}
 	ep.Set(1)
-	return sw.Open(sw.Config{Dir: dir, WriteCache: c.WC, Epoch: ep, Payments: payments()})
+	cfg := sw.Config{Dir: dir, WriteCache: c.WC, Epoch: ep, Payments: payments()}
+	if s != nil {
+		cfg.WrapStorage = func(st common.Storage) common.Storage { s.fs = sw.NewFaultyStorage(st); return s.fs }
+		cfg.MetaOpenFile = func(p string, flag int, perm os.FileMode) (*os.File, error) {
+			if s.metaFail.Swap(false) {
+				return nil, errInj
+			}
+			return os.OpenFile(p, flag, perm)
+		}
+	}
+	return sw.Open(cfg)
 }
 
 func (c *config) buildImage() error {
 	c.dir = newDir("image")
-	w, err := c.open(c.dir)
+	w, err := c.open(c.dir, nil)
 	if err != nil {
 		return err
 	}
@@ -242,13 +277,16 @@ var ops = []opDef{
 }
 
 type sys struct {
-	c    *config
-	w    *sw.World
-	dir  string
-	base sw.State // byte-level persistent state of THIS instance right after the mode switch
-	wcb  string   // write-cache accounting at that moment
-	fp   string
-	msg  string
+	c        *config
+	w        *sw.World
+	fs       *sw.FaultyStorage
+	metaFail atomic.Bool
+	mode     mode.Mode // the mode the shard reports after the entry switch
+	dir      string
+	base     sw.State // byte-level persistent state of THIS instance right after the mode switch
+	wcb      string   // write-cache accounting at that moment
+	fp       string
+	msg      string
 }
 
 func (c *config) newSys() *sys {
@@ -262,14 +300,44 @@ func (c *config) newSys() *sys {
 	if err := sw.CopyTree(c.dir, s.dir); err != nil {
 		return fail(err)
 	}
-	w, err := c.open(s.dir)
+	w, err := c.open(s.dir, s)
 	if err != nil {
 		return fail(err)
 	}
 	s.w = w
-	if err := w.SetMode(c.Mode); err != nil {
+	// enter the mode through SetMode, from read-write, with the entry fault armed for that one call
+	wcDir, away := sw.WCDir(s.dir), sw.WCDir(s.dir)+".away"
+	switch c.Entry {
+	case eBlobWrite:
+		s.fs.ArmWrites(errInj)
+	case eBlobInit:
+		s.fs.Arm(nil, errInj, nil, nil)
+	case eMetaOpen:
+		s.metaFail.Store(true)
+	case eWCDir:
+		if err := os.Rename(wcDir, away); err != nil {
+			return fail(err)
+		}
+		if err := os.WriteFile(wcDir, []byte("x"), 0o600); err != nil {
+			return fail(err)
+		}
+	}
+	err = w.SetMode(c.Mode)
+	s.fs.ArmWrites(nil)
+	s.fs.Arm(nil, nil, nil, nil)
+	s.metaFail.Store(false)
+	if c.Entry == eWCDir {
+		if err := os.Remove(wcDir); err != nil {
+			return fail(err)
+		}
+		if err := os.Rename(away, wcDir); err != nil {
+			return fail(err)
+		}
+	}
+	if err != nil && c.Entry == eClean {
 		return fail(fmt.Errorf("switch to mode: %w", err))
 	}
+	s.mode = w.Sh.GetMode()
 	// The baseline is taken per instance: the read-write prelude (open + init + switch) stores the
 	// same logical content in every instance but bbolt's page layout is not reproducible.
 	if s.base, err = sw.SnapStateRaw(s.dir); err != nil {
@@ -319,7 +387,7 @@ func (s *sys) Apply(i int) (string, bool) {
 	}
 	switch {
 	case o.Mutating:
-		okErr := cls == "shard.ErrReadOnlyMode" || (s.c.Mode == mode.DegradedReadOnly && cls == "shard.ErrDegradedMode") ||
+		okErr := cls == "shard.ErrReadOnlyMode" || (s.mode == mode.DegradedReadOnly && cls == "shard.ErrDegradedMode") ||
 			(o.Name == "FlushWriteCache" && !s.c.WC && cls == "write-cache-disabled")
 		if !okErr {
 			s.fp = "mutating-request-not-refused-with-mode-error:" + strings.SplitN(o.Name, "(", 2)[0]
@@ -361,7 +429,7 @@ func getClass(o *object.Object, err error, want []byte) string {
 
 func (s *sys) Check() (string, string) {
 	c := s.c
-	if m := s.w.Sh.GetMode(); m != c.Mode {
+	if m := s.w.Sh.GetMode(); m != s.mode {
 		return "mode-changed", fmt.Sprintf("%s: shard now reports %s", c.name(), m)
 	}
 	st, err := sw.SnapStateRaw(s.dir)
@@ -382,7 +450,7 @@ func (s *sys) Check() (string, string) {
 	for _, rd := range images[c.Img].Reads {
 		a := sw.Addr(rd.Cnr, rd.Obj)
 		want := rd.RO(ep)
-		if c.Mode == mode.DegradedReadOnly { // no metabase: whatever is physically stored is served
+		if s.mode == mode.DegradedReadOnly { // no metabase: whatever is physically stored is served
 			want = "ok"
 			if _, stored := c.objs[a.EncodeToString()]; !stored {
 				want = "notfound" // e.g. a cached object dropped from the write-cache by MarkGarbage
@@ -407,7 +475,7 @@ func (s *sys) Check() (string, string) {
 	}
 	// metabase-backed listings: served in read-only mode, refused with the degraded error otherwise
 	_, lerr := s.w.Sh.ListContainers()
-	if c.Mode == mode.ReadOnly && lerr != nil || c.Mode == mode.DegradedReadOnly && !errors.Is(lerr, shard.ErrDegradedMode) {
+	if s.mode == mode.ReadOnly && lerr != nil || s.mode == mode.DegradedReadOnly && !errors.Is(lerr, shard.ErrDegradedMode) {
 		return "read:list-containers", fmt.Sprintf("%s: ListContainers: %v", c.name(), lerr)
 	}
 	return "", ""
@@ -447,10 +515,16 @@ func main() {
 	}
 
 	var cfgs []*config
+	var notReached []string // failed entry switch left the shard reporting a writable mode: premise not established
 	for img := range images {
 		for _, wc := range []bool{false, true} {
 			for _, m := range []mode.Mode{mode.ReadOnly, mode.DegradedReadOnly} {
-				cfgs = append(cfgs, &config{Img: img, WC: wc, Mode: m})
+				for e := 0; e < nEntries; e++ {
+					if e == eWCDir && !wc {
+						continue
+					}
+					cfgs = append(cfgs, &config{Img: img, WC: wc, Mode: m, Entry: e})
+				}
 			}
 		}
 	}
@@ -459,6 +533,10 @@ func main() {
 			fatal("%v", err)
 		}
 		s := c.newSys()
+		c.premise = s.mode.ReadOnly()
+		if !c.premise {
+			notReached = append(notReached, c.name())
+		}
 		st, err := sw.SnapState(s.dir)
 		if err != nil {
 			fatal("%v", err)
@@ -474,7 +552,7 @@ func main() {
 		var rp struct{ Ops []string }
 		r.LoadReplay(&rp)
 		for _, c := range cfgs {
-			if len(rp.Ops) > 0 && !strings.HasPrefix(rp.Ops[0], "["+c.name()+"] ") {
+			if !c.premise || (len(rp.Ops) > 0 && !strings.HasPrefix(rp.Ops[0], "["+c.name()+"] ")) {
 				continue
 			}
 			cfg := seqCfg(c)
@@ -499,7 +577,12 @@ func main() {
 
 	exhaustive, fix := true, true
 	states, trans, obs := 0, 0, 0
+	run := 0
 	for _, c := range cfgs {
+		if !c.premise {
+			continue
+		}
+		run++
 		res := seqx.Run(r, seqCfg(c))
 		exhaustive = exhaustive && res.Exhaustive
 		fix = fix && res.Fixpoint
@@ -509,9 +592,11 @@ func main() {
 		r.Set("states:"+c.name(), res.States)
 	}
 	r.Set("fixpoint_reached", fix)
+	r.Set("configurations_explored", run)
+	r.Set("configurations_where_failed_entry_left_a_writable_mode", len(notReached))
 	r.Set("distinct_observation_classes", obs)
 	r.Exhaustive(exhaustive)
-	r.Rule(fmt.Sprintf("%d configurations = 3 pre-populated images (plain; pending GC work: tombstoned/expired/locked/garbage-marked objects; containers marked for removal) x write-cache off/on (cached + flushed objects) x {read-only, degraded-read-only}; BFS over %d operations (12 mutating APIs, GC pass, 2 epoch events with an unpaid container, flush tick, dump) until no new state appears (fixpoint=%v); state = byte-level on-disk state + write-cache accounting + GC epochs; oracle after every transition", len(cfgs), len(ops), fix))
+	r.Rule(fmt.Sprintf("%d configurations = 3 pre-populated images (plain; pending GC work: tombstoned/expired/locked/garbage-marked objects; containers marked for removal) x write-cache off/on (cached + flushed objects) x {read-only, degraded-read-only} x entry {clean SetMode from read-write, SetMode with blobstor writes failing, blobstor init failing, metabase open failing, write-cache directory unopenable}; a configuration is explored iff the shard REPORTS a read-only mode after the entry switch (otherwise the premise is not established; counted); BFS over %d operations (12 mutating APIs, GC pass, 2 epoch events with an unpaid container, flush tick, dump) until no new state appears (fixpoint=%v); state = byte-level on-disk state + write-cache accounting + GC epochs; oracle after every transition", len(cfgs), len(ops), fix))
 	r.Assume("background jobs are run synchronously through the injected wrappers (same functions the goroutines call); the write-cache flush ticker is virtual and fired by the harness",
 		"single-threaded histories: no concurrency between requests and background jobs",
 		"the mode error of a mutating request is shard.ErrReadOnlyMode (read-only) or shard.ErrReadOnlyMode/ErrDegradedMode (degraded-read-only), the identities the engine dispatches on")
